@@ -180,7 +180,17 @@ func (h *hydrex) Save(ctx context.Context, indexName string, domain string, item
 
 	// iterating through the new items
 	for key, data := range items {
-		if _, ok := existingCoreData[key]; !ok {
+		existing, ok := existingCoreData[key]
+		if ok && existing.Value != data.Value {
+			// the key stays, its value changed: store the new value (the index entry
+			// and the creation time of the key are unaffected)
+			itemsForSave = append(itemsForSave, &CoreData{
+				Key:       key,
+				Value:     data.Value,
+				CreatedAt: existing.CreatedAt,
+			})
+		}
+		if !ok {
 
 			// array for saving new items
 			itemsForSave = append(itemsForSave, &CoreData{
